@@ -25,7 +25,8 @@ def main(payload):
         try:
             cls = ED_Solver if c['kind'] == 'ED' else nED_Solver
             s = cls(**c['params'])
-            r = {'sound': float(s.sound), 'M0': float(s.M0)}
+            r = {'sound': float(s.sound), 'M0': float(s.M0), 'P0': float(s.P0), 'C0': float(s.C0), 'rho0': float(s.rho0), 'gamma': float(s.gamma),
+                 'down': {'rho': float(s.Density[-1] / s.rho0), 'T': float((s.Tm if c['kind'] == 'ED' else s.Tr)[-1] / s.Tref), 'Tm': float(s.Tm[-1] / s.Tref)}}
             x = np.array(c['xs'], dtype=float)
             shift = s.M0 * s.sound * c['t']
             a = s(x + shift, c['t']); b = s(x, 0.0)
@@ -96,6 +97,17 @@ def unit_corr(rng, tier, prop):
         gam, Cv, Tref = P.get('gamma', 5.0 / 3.0), P.get('Cv', 1.4472799784454e12), P.get('Tref', 100.0)
         goals.append('Goal Rabs (rs_sound %s %s %s - %s) <= %s.\nProof. unfold rs_sound. interval with (i_prec 90). Qed.' % (
             qlit(Cv), qlit(Tref), qlit(gam), qlit(r['sound']), coq_num(Fraction(1, 10 ** 10) * Fraction(r['sound']))))
+        rho0 = P.get('rho0', 1.0)
+        goals.append('Goal Rabs (rs_P0 %s %s %s %s - %s) <= %s.\nProof. unfold rs_P0. interval with (i_prec 90). Qed.' % (
+            qlit(Cv), qlit(Tref), qlit(gam), qlit(rho0), qlit(r['P0']), coq_num(Fraction(1, 10 ** 9) * Fraction(r['P0']))))
+        goals.append('Goal Rabs (rs_C0 %s %s %s - %s) <= %s.\nProof. unfold rs_C0. interval with (i_prec 90). Qed.' % (
+            qlit(Cv), qlit(Tref), qlit(gam), qlit(r['C0']), coq_num(Fraction(1, 10 ** 9) * Fraction(r['C0']))))
+        # the far-downstream end of the real profile (relaxed to equilibrium within eps_relaxation_equil = 1e-6) is a root of the regenerated residuals
+        if abs(r['down']['T'] - r['down']['Tm']) < 1e-4:
+            tolq = coq_num(Fraction(1, 10 ** 4) * (Fraction(r['M0']) ** 2 + 1))
+            for nm in ('rs_down_momentum', 'rs_down_energy'):
+                goals.append('Goal Rabs (%s %s %s %s %s %s) <= %s.\nProof. unfold %s. interval with (i_prec 90). Qed.' % (
+                    nm, qlit(r['M0']), qlit(r['gamma']), qlit(r['P0']), qlit(r['down']['rho']), qlit(r['down']['T']), tolq, nm))
         if r.get('history_defect', 0) > 1e-9:
             dis.append({'solver': c['kind'] + '_Solver', 'params': P, 't': c['t'], 'history_defect': r['history_defect'],
                         'why': 'the same instance called at t, 2.5 t and t again does not reproduce a fresh instance at t'})
